@@ -392,12 +392,12 @@ PROPS["C07"] = {
         + _c07(["c07_parse_sr_0", "c07_parse_sr_24", "c07_parse_sr_52"], RM, "parse_sender_report", "parse_sender_report")
         + _c07(["c07_parse_rr_3", "c07_parse_rr_28"], RM, "parse_receiver_report", "parse_receiver_report")
         + _c07(["c07_parse_psfb_16", "c07_parse_psfb_24"], RM, "parse_rtcp_psfb", "parse_rtcp_psfb")
-        + _c07(["c07_parse_nack_7", "c07_parse_nack_16"], RM, "parse_nack_body", "parse_nack_body")
+        + _c07(["c07_parse_nack_7"], RM, "parse_nack_body", "parse_nack_body")
         + _c07(["c07_parse_remb_15", "c07_parse_remb_24"], RM, "parse_remb_body", "parse_remb_body")
         + _c07(["c07_parse_twcc_15", "c07_parse_twcc_20"], RM, "parse_twcc_body", "parse_twcc_body")
         + _c07(["c07_parse_fir_7", "c07_parse_fir_24"], RM, "parse_fir_body", "parse_fir_body")
-        + _c07(["c07_walker_unknown_4", "c07_walker_unknown_8", "c07_walker_xr_8", "c07_walker_rr_8", "c07_walker_psfb_12", "c07_walker_rtpfb_16", "c07_walker_sr_28"], RM, "parse_rtcp_packets",
-               "parse_rtcp_packets (compound walker; ONE sub-packet, type octet and length field fixed: unknown=0 / XR=207 / RR=201 / PSFB=206 / RTPFB=205 / SR=200; V, P, count, body, padding count symbolic)")
+        + _c07(["c07_walker_unknown_4", "c07_walker_unknown_8", "c07_walker_xr_8", "c07_walker_rr_8", "c07_walker_sr_28"], RM, "parse_rtcp_packets",
+               "parse_rtcp_packets (compound walker; ONE sub-packet, type octet and length field fixed: unknown=0 / XR=207 / RR=201 / SR=200 (PSFB=206 in the thorough tier); V, P, count, body, padding count symbolic)")
         + _c07(["c07_stun_decode_0", "c07_stun_decode_19", "c07_stun_decode_20"], SM, "decode_stun_message", "decode_stun_message")
         + [
             K("ClientHello::decode fields (literal framing, 42 B)", "c07_client_hello_fields_literal_42", "quick", "bounded", ["ClientHello::decode"],
@@ -412,7 +412,9 @@ PROPS["C07"] = {
             K("canary: ServerHello::decode never succeeds on 38 bytes", "canary_server_hello_38_always_err", "quick", "canary", ["ServerHello::decode"],
               "false claim, must FAIL", expect="fail", module=HM2),
         ]
-        + [dict(o, tier="thorough", timeout=1200) for o in _c07(["c07_parse_rtpfb_16"], RM, "parse_rtcp_rtpfb", "parse_rtcp_rtpfb")]
+        + [dict(o, tier="thorough", timeout=1500) for o in _c07(["c07_parse_rtpfb_16"], RM, "parse_rtcp_rtpfb", "parse_rtcp_rtpfb")
+           + _c07(["c07_parse_nack_16"], RM, "parse_nack_body", "parse_nack_body")
+           + _c07(["c07_walker_psfb_12"], RM, "parse_rtcp_packets", "parse_rtcp_packets (compound walker; ONE sub-packet, type octet PSFB=206 and length field fixed)")]
     ),
 }
 
